@@ -528,3 +528,20 @@ Fixpoint written (ops : list hop) : bytes :=
   | HReadFrom cs :: r => concat cs ++ written r
   | _ :: r => written r
   end.
+
+(* ---------------------------------------------------------------- what a handler means, read off its operations *)
+(* does a writer whose final status is c keep body bytes (no Content-Length declared) *)
+Definition okb (sk : bool) (c : N) : bool := negb (sk && negb (body_allowed c)).
+
+(* the status the operation list commits on a writer (sk = true: 1xx are informational) *)
+Fixpoint handler_status (sk : bool) (ops : list hop) : N :=
+  match ops with
+  | [] => 200
+  | HWriteHeader c :: r => if sk && is_info c then handler_status sk r else c
+  | HWrite _ :: _ => 200
+  | HFlush :: _ => 200
+  | HReadFrom (_ :: _) :: _ => 200
+  | _ :: r => handler_status sk r
+  end.
+
+Definition handler_headers (ops : list hop) : headers := fold_left (fun h op => hdr_step op h) ops [].
